@@ -573,6 +573,8 @@ mod proofs {
         kind: Kind,
         content: [u8; L],
         len: usize,
+        /// 0: every write has a symbolic length 1..=L; otherwise every write offers exactly this many bytes
+        fixed_len: usize,
     }
 
     impl Writer {
@@ -586,6 +588,7 @@ mod proofs {
                 kind: Kind::Flush,
                 content: [0; L],
                 len: 1,
+                fixed_len: 0,
             }
         }
 
@@ -618,7 +621,7 @@ mod proofs {
                 };
                 if self.kind == Kind::Write {
                     self.content = kani::any();
-                    self.len = any_len(L);
+                    self.len = if self.fixed_len > 0 { self.fixed_len } else { any_len(L) };
                 }
                 self.in_progress = true;
             }
@@ -962,6 +965,49 @@ mod proofs {
         kani::cover!(frames == 2, "two frames on the wire");
         kani::cover!(frames == 2 && m.pending_mid_frame && w.acc_n as usize == ACC);
         kani::cover!(frames == 1 && w.acc_n == 2, "two one-byte writes in one frame");
+        std::mem::forget(a);
+    }
+
+    /// (b'') Back-pressure on FULL payload buffers (quick-tier companion of `flush_delivers_exactly_once_on_wire`, added after
+    /// seed C13_j): two `poll_write`s that each offer exactly PAYLOAD bytes (the second one arrives while the frame of the
+    /// first may still be in flight), then `poll_flush`, over a transport that answers Pending up to P = 2 times and accepts
+    /// partially up to Q = 2 times. `Poll::Pending` from `poll_write` means NOTHING was accepted (the caller retries with the
+    /// same bytes); the wire must carry exactly the accepted bytes, once.
+    /// unwind 4: poll_flush_frame <= Q + 1 = 3 iterations.
+    #[kani::proof]
+    #[kani::unwind(4)]
+    fn full_payload_writes_under_backpressure() {
+        const Q: u8 = 2;
+        let mut a = new_stream(Mock::writer(2, Q));
+        let mut w = Writer::new();
+        w.fixed_len = PAYLOAD;
+        unroll!([0, 1, 2], |_s| {
+            w.step::<true, false, false>(&mut a, 1, Kind::Write);
+        });
+        unroll!([0, 1, 2], |_s| {
+            w.step::<true, false, false>(&mut a, 2, Kind::Write);
+        });
+        unroll!([0, 1, 2], |_s| {
+            w.step::<false, true, false>(&mut a, 3, Kind::Flush);
+        });
+        assert!(
+            w.ops_done == 3 && !w.in_progress,
+            "write-half operation still Pending after the transport's Pending budget"
+        );
+        assert!(w.flushed == w.acc_n);
+        let m: &Mock = &a;
+        let (dec, dec_n, frames) = decode_frames(m);
+        assert!(dec_n == w.acc_n, "wire carries a different number of plaintext bytes than accepted (bytes of a write that answered Pending were kept)");
+        unroll8!(|i| {
+            if i < dec_n {
+                assert!(
+                    dec[i as usize] == w.acc[i as usize],
+                    "wire plaintext differs from the accepted plaintext"
+                );
+            }
+        });
+        kani::cover!(frames == 2 && m.pending_mid_frame, "two frames, transport answered Pending in the middle of one");
+        kani::cover!(w.acc_n as usize == 2 * PAYLOAD, "both full writes accepted completely");
         std::mem::forget(a);
     }
 
